@@ -45,6 +45,16 @@ StoreLogs(i, j, fail) ==
           /\ nextver' = [k \in Idx |-> IF k \in i..j THEN nextver[k] + 1 ELSE nextver[k]]
   /\ Emit([k |-> "store", i |-> i, j |-> j, fail |-> fail])
 
+\* a batch with a gap: exactly the indexes i and j (the LogStore API does not require contiguity; when j - i is a
+\* multiple of Cap both land in the same slot)
+StoreGap(i, j, fail) ==
+  /\ j > i + 1 /\ nextver[i] <= MaxVer /\ nextver[j] <= MaxVer
+  /\ IF fail THEN UNCHANGED vars
+     ELSE /\ be' = [k \in Idx |-> IF k \in {i, j} THEN nextver[k] ELSE be[k]]
+          /\ cache' = [[cache EXCEPT ![Slot(i)] = <<i, nextver[i]>>] EXCEPT ![Slot(j)] = <<j, nextver[j]>>]
+          /\ nextver' = [k \in Idx |-> IF k \in {i, j} THEN nextver[k] + 1 ELSE nextver[k]]
+  /\ Emit([k |-> "storegap", i |-> i, j |-> j, fail |-> fail])
+
 DeleteRange(lo, hi, fail) ==
   /\ lo <= hi
   /\ cache' = [s \in 0..(Cap - 1) |-> <<0, 0>>]
@@ -53,6 +63,7 @@ DeleteRange(lo, hi, fail) ==
   /\ Emit([k |-> "delete", i |-> lo, j |-> hi, fail |-> fail])
 
 Next == \/ \E i, j \in Idx, f \in BOOLEAN : StoreLogs(i, j, f)
+        \/ \E i, j \in Idx, f \in BOOLEAN : StoreGap(i, j, f)
         \/ \E i, j \in Idx, f \in BOOLEAN : DeleteRange(i, j, f)
 Spec == Init /\ [][Next]_vars
 
